@@ -46,9 +46,11 @@ EXHAUSTIVE = {
 # simulated configs (M by simulation + G: behaviours replayed on the real components)
 SIMULATED = {
     "C01": {
-        "quick": [("S1", cfgc(MaxOps=3, MaxDup=1, MaxExch=6, WithBatch=True, WithBulk=True, MinOpsToEmit=2), 2500, 80, 3000),
+        "quick": [("T1", cfgc(WithTracker=True, NoDirect=True, MaxOps=2, MaxExch=5, MinOpsToEmit=2), None, None, 6000),
+                  ("S1", cfgc(MaxOps=3, MaxDup=1, MaxExch=6, WithBatch=True, WithBulk=True, MinOpsToEmit=2), 2500, 80, 3000),
                   ("S3b", cfgc(Nodes={1, 2, 3}, CNodes={1, 2, 3}, MaxOps=2, MaxExch=12, WithBulk=True, MinOpsToEmit=2), 1500, 120, 1500)],
-        "thorough": [("S3b", cfgc(Nodes={1, 2, 3}, CNodes={1, 2, 3}, MaxOps=3, MaxExch=14, WithBulk=True, WithBatch=True, MinOpsToEmit=2), 20000, 160, 8000),
+        "thorough": [("T1", cfgc(WithTracker=True, NoDirect=True, MaxOps=2, MaxExch=5, MinOpsToEmit=2), None, None, 6000),
+                     ("S3b", cfgc(Nodes={1, 2, 3}, CNodes={1, 2, 3}, MaxOps=3, MaxExch=14, WithBulk=True, WithBatch=True, MinOpsToEmit=2), 20000, 160, 8000),
                      ("S1", cfgc(MaxOps=3, MaxDup=1, MaxExch=6, WithBatch=True, WithBulk=True, MinOpsToEmit=2), 30000, 80, 25000),
                      ("S2", cfgc(MaxOps=4, MaxDup=1, MaxExch=8, WithBatch=True, WithBulk=True, WithRestart=True, MinOpsToEmit=3), 20000, 120, 6000),
                      ("S3", cfgc(Nodes={1, 2, 3}, CNodes={1, 2, 3}, MaxOps=3, MaxExch=12, WithBatch=True, MinOpsToEmit=2), 20000, 140, 6000)],
@@ -65,7 +67,8 @@ SIMULATED = {
                                   WithPurge=True, MinOpsToEmit=3), 15000, 160, 6000)],
     },
 }
-COARSE = {"quick": 360, "thorough": 6000}
+COARSE = {"quick": 1200, "thorough": 12000}
+TRACKED = {"quick": 1200, "thorough": 12000}
 ACTOR_PROPS = {"C01": ["C04", "C05"], "C05": ["C05"], "C08": ["C08"]}
 INVARIANTS = ["C01_Converges", "C02_Agree", "C05_NothingLeft", "C01_TrackerFixpoint"]
 
@@ -87,10 +90,16 @@ def _consts(c):
 
 
 def _simulated(ctx, binary, name, c, num, depth, max_replay):
-    cfg = vlib.cfg_text(constants=dict(c, EmitTrace=True), invariants=INVARIANTS, constraints=["Emit"])
     out_file = ctx.path("sim_%s.out" % name)
-    sim, text = vlib.run_tlc(ctx, "Cluster", cfg, "sim_" + name, workers=4, timeout=3000,
-                             extra=["-simulate", "num=%d" % num, "-depth", str(depth), "-seed", str(ctx.seed)], stdout_to=out_file)
+    if num is None:
+        # breadth-first with the history hidden from the fingerprint: one behaviour (a shortest one) for every distinct
+        # converged state of the configuration - a systematic population instead of a random one
+        cfg = vlib.cfg_text(constants=dict(c, EmitTrace=True), invariants=INVARIANTS, constraints=["Emit"], view="MCView")
+        sim, text = vlib.run_tlc(ctx, "Cluster", cfg, "enum_" + name, workers=6, timeout=3000, stdout_to=out_file, xmx="8g")
+    else:
+        cfg = vlib.cfg_text(constants=dict(c, EmitTrace=True), invariants=INVARIANTS, constraints=["Emit"])
+        sim, text = vlib.run_tlc(ctx, "Cluster", cfg, "sim_" + name, workers=4, timeout=3000,
+                                 extra=["-simulate", "num=%d" % num, "-depth", str(depth), "-seed", str(ctx.seed)], stdout_to=out_file)
     bad = [l for l in text.splitlines() if l.startswith("Error:")]
     violated = sim["violated"]
     if bad and not violated:
@@ -106,23 +115,32 @@ def _simulated(ctx, binary, name, c, num, depth, max_replay):
     # (G, coarse) the same behaviours with every repair exchange executed by the real poller code in one piece
     # (get_keyspace_diff + begin_keyspace_sync / a repair_members round); each costs the poller's 250 ms progress tick,
     # so slices run in parallel processes
-    n_coarse = COARSE[ctx.tier]
-    procs = 12
-    per = max(1, n_coarse // procs)
+    procs = 6
 
-    def coarse_slice(i):
-        o = ctx.path("coarse_%s_%d.json" % (name, i))
-        vlib.run_harness(ctx, [binary, "replay-cluster", "--input", out_file, "--out", o, "--f", str(c["F"]), "--mode", "coarse",
-                               "--nodes", ",".join(map(str, sorted(c["CNodes"]))), "--max", str(per * procs),
-                               "--slice", "%d/%d" % (i, procs)], timeout=3000, env={"DATACAKE_VERIF_TRACE_DIR": actors_dir})
-        return vlib.load_json(o)
-    with concurrent.futures.ThreadPoolExecutor(max_workers=procs) as pool:
-        parts = list(pool.map(coarse_slice, range(procs)))
-    rep["coarse"] = {"behaviours": sum(x["behaviours"] for x in parts), "steps": sum(x["steps"] for x in parts),
-                     "violation_count": sum(x["violation_count"] for x in parts)}
-    rep["violations"] = rep["violations"] + [dict(v, mode="coarse: exchanges run by the real poller in one piece")
-                                             for x in parts for v in x["violations"]]
-    rep["violation_count"] += rep["coarse"]["violation_count"]
+    def whole(mode, total):
+        per = max(1, total // procs)
+
+        def one(i):
+            o = ctx.path("%s_%s_%d.json" % (mode, name, i))
+            vlib.run_harness(ctx, [binary, "replay-cluster", "--input", out_file, "--out", o, "--f", str(c["F"]), "--mode", mode,
+                                   "--nodes", ",".join(map(str, sorted(c["CNodes"]))), "--max", str(per * procs),
+                                   "--slice", "%d/%d" % (i, procs)], timeout=3000, env={"DATACAKE_VERIF_TRACE_DIR": actors_dir})
+            return vlib.load_json(o)
+        with concurrent.futures.ThreadPoolExecutor(max_workers=procs) as pool:
+            parts = list(pool.map(one, range(procs)))
+        rep["violations"] = rep["violations"] + [dict(v, mode=mode) for x in parts for v in x["violations"]]
+        rep["violation_count"] += sum(x["violation_count"] for x in parts)
+        return {"behaviours": sum(x["behaviours"] for x in parts), "steps": sum(x["steps"] for x in parts),
+                "violation_count": sum(x["violation_count"] for x in parts),
+                "poller_rounds": sum(x.get("poller_rounds", 0) for x in parts),
+                "poller_fixpoints": sum(x.get("poller_fixpoints", 0) for x in parts)}
+    rep["coarse"] = whole("coarse", COARSE[ctx.tier])
+    n_tracked = TRACKED[ctx.tier] if num is not None else max(TRACKED[ctx.tier], rep["behaviours"])
+    # (G, tracked) the operations of the same behaviours, then every node runs the body of the real poller loop
+    # (repair_members with its keyspace tracker) against all others until a whole round asks for no difference
+    rep["tracked"] = whole("tracked", n_tracked)
+    if rep["tracked"]["poller_fixpoints"] == 0:
+        raise vlib.ToolError("vacuous: no behaviour reached the poller's fixpoint in tracked mode")
     os.remove(out_file)
     # (V) what every keyspace actor of the real nodes did during the replay, against Trace_KeyspaceActor.tla
     rep["actor_trace"] = actor_traces.validate(ctx, actor_trace.files_in(actors_dir), "actors_" + name, ACTOR_PROPS[ctx.prop],
@@ -130,7 +148,7 @@ def _simulated(ctx, binary, name, c, num, depth, max_replay):
     shutil.rmtree(actors_dir, ignore_errors=True)
     if rep["behaviours"] == 0:
         raise vlib.ToolError("vacuous: simulation of %s emitted no converged behaviour" % name)
-    return dict(name=name, kind="simulated", sim=sim, violated=violated, rep=rep, constants=_consts(c), num=num, depth=depth)
+    return dict(name=name, kind="simulated", sim=sim, violated=violated, rep=rep, constants=_consts(c), num=num or "every distinct converged state", depth=depth)
 
 
 def run_all(ctx, prop):
@@ -142,9 +160,10 @@ def run_all(ctx, prop):
         futs = [pool.submit(_exhaustive, ctx, n, c, workers) for n, c in ex]
         for n, c, num, depth, mx in SIMULATED[prop][ctx.tier]:
             r = _simulated(ctx, binary, n, c, num, depth, mx)
-            ctx.log("simulated %s: %d converged behaviours replayed on real nodes step by step (%d steps) and %d with whole exchanges "
-                    "run by the real poller: %d violations, drift %d" % (
-                n, r["rep"]["behaviours"], r["rep"]["steps"], r["rep"]["coarse"]["behaviours"], r["rep"]["violation_count"], r["rep"]["drift"]))
+            ctx.log("simulated %s: %d converged behaviours replayed on real nodes step by step (%d steps), %d with whole exchanges "
+                    "run by the real poller, %d with real poller rounds (tracker) up to the fixpoint (%d rounds): %d violations, drift %d" % (
+                n, r["rep"]["behaviours"], r["rep"]["steps"], r["rep"]["coarse"]["behaviours"], r["rep"]["tracked"]["behaviours"],
+                r["rep"]["tracked"]["poller_rounds"], r["rep"]["violation_count"], r["rep"]["drift"]))
             results.append(r)
         for f in concurrent.futures.as_completed(futs):
             r = f.result()
@@ -167,7 +186,7 @@ def judge(ctx, results, props):
                 if len(ctx.violations) < 4:
                     ctx.violations.append({"engine": "h-ec replay-cluster", "config": r["name"], "constants": r["constants"],
                                            "why": v["why"][:6], "behaviour": v["behaviour"], "expect": v.get("expect"), "reads": v.get("reads"),
-                                           "mode": "coarse" if v.get("mode") else "fine"})
+                                           "mode": v.get("mode", "fine")})
         samples += r["rep"]["samples"][:2]
     model_bad = [r["name"] for r in results if (r["kind"] == "exhaustive" and not r["ok"]) or (r["kind"] == "simulated" and r["violated"])]
     if model_bad and not real_found:
@@ -184,6 +203,6 @@ def judge(ctx, results, props):
                                     depth=r["mc"]["depth"], wall_s=r["mc"]["wall_s"]) for r in ex],
         "simulated_configs": [dict(name=r["name"], constants=r["constants"], traces=r["num"], depth=r["depth"],
                                    behaviours_replayed=r["rep"]["behaviours"], steps=r["rep"]["steps"],
-                                   step_kinds=r["rep"]["step_kinds"], whole_exchange_behaviours=r["rep"]["coarse"]["behaviours"], actor_trace=r["rep"].get("actor_trace")) for r in si],
+                                   step_kinds=r["rep"]["step_kinds"], whole_exchange_behaviours=r["rep"]["coarse"]["behaviours"], poller_round_behaviours=r["rep"]["tracked"], actor_trace=r["rep"].get("actor_trace")) for r in si],
         "checker_cmd": ex[0]["mc"]["cmd"] if ex else "",
     }
